@@ -222,6 +222,7 @@ func (l *linkedBuffer) WriteString(str string) error {
 
 func (l *linkedBuffer) recycle() {
 	l.recycleMux.Lock()
+	l.cleanPinnedList()
 	for l.sliceList.size() > 0 {
 		slice := l.sliceList.popFront()
 		if slice.isFromShm {
